@@ -135,6 +135,28 @@ class Tree:
         fs = self.fs
         p = fs.path(m["path"])
         self.nmut = getattr(self, "nmut", 0) + 1
+        # a deploy that normalises timestamps: the directories above the changed path keep the mtimes
+        # they had before (whoever looks only at a directory's mtime sees nothing)
+        keep_dirs = []
+        if m.get("keep_dir_mtimes"):
+            d = os.path.dirname(p)
+            while len(d) >= len(fs.root):
+                try:
+                    stt = os.stat(d)
+                    keep_dirs.append((d, stt.st_atime_ns, stt.st_mtime_ns))
+                except OSError:
+                    pass
+                d = os.path.dirname(d)
+        try:
+            return self._mutate(m, fs, p)
+        finally:
+            for d, a, mt in keep_dirs:
+                try:
+                    os.utime(d, ns=(a, mt))
+                except OSError:
+                    pass
+
+    def _mutate(self, m, fs, p):
         tick = (-100 - self.nmut) if m.get("older") else (500 + self.nmut)
 
         def remove():
@@ -325,7 +347,7 @@ class C22:
         if loader == "pkg":
             sc["ext"] = rng.choice([".liquid", ".liquid", ".txt"])
         nreq = rng.randint(1, 40 if tier == "thorough" else 24)
-        nclients = rng.randint(1, 4)
+        nclients = rng.weighted([(1, 3), (2, 3), (3, 3), (4, 3), (6, 1.5), (8, 1.5)])   # more than four overlapping loads too
         clients = [{"id": c, "ops": []} for c in range(nclients)]
         pool = []
         for i in range(nreq):
@@ -361,6 +383,8 @@ class C22:
                     uid += 1
                 if mut["kind"] == "write" and rng.chance(0.4):
                     mut["older"] = True      # the replacement carries an OLDER mtime than anything in the tree
+                if rng.chance(0.4):
+                    mut["keep_dir_mtimes"] = True
                 seq.append({"op": "mutate", "uid": uid, **mut})
                 uid += 1
                 for nm in [rng.choice(names) for _ in range(rng.randint(1, 3))]:
@@ -378,8 +402,10 @@ class C22:
                 mut, names = self._gen_mutation(rng, sc)
                 if mut["kind"] == "write" and rng.chance(0.4):
                     mut["older"] = True
+                if rng.chance(0.4):
+                    mut["keep_dir_mtimes"] = True
                 pcl = []
-                for c in range(rng.randint(1, 4)):
+                for c in range(rng.randint(1, 6)):
                     ops = []
                     for _ in range(rng.randint(1, 3)):
                         ops.append({"op": "req", "uid": uid, "name": rng.choice(names) if rng.chance(0.8) else rng.choice(pool),
